@@ -187,6 +187,20 @@ def encodeBlocks : List Nat → List Block → Encoder → Array Nat → Encoder
     encodeBlocks cs bs e out
   | _, _, e, out => (e, out)
 
+/-- `w.Write(e.buf[:bufIndex])` and the error handling after it: the common tail of `Reset` and
+    `addN`.  `out.size > bufLen` stands for the index panic an overrun of `buf` would have raised. -/
+def finishWrite (e : Encoder) (out : Array Nat) (wfail : Bool) : Encoder × Res :=
+  if out.size > bufLen then (e, .panic)
+  else if wfail then ({ e with hasReturnedError := true }, .err .write)
+  else (e, .ok out)
+
+/-- the `if e.numAddsRemaining == 0 { … }` part of `addN`: pad with 1-bits, EOI marker -/
+def emitEOI (e : Encoder) (out : Array Nat) : Encoder × Array Nat :=
+  if e.numAddsRemaining = 0 then
+    let (e, out) := emitBits e out 0x7F 7
+    (e, (out.push 0xFF).push 0xD9)
+  else (e, out)
+
 /-- `Encoder.addN`.  `wfail`: the writer returns an error. -/
 def addN (e : Encoder) (wfail : Bool) (blocks : List Block) : Encoder × Res :=
   if !blocks.all blockIsValid then
@@ -196,14 +210,8 @@ def addN (e : Encoder) (wfail : Bool) (blocks : List Block) : Encoder × Res :=
   else
     let e := { e with numAddsRemaining := e.numAddsRemaining - 1 }
     let (e, out) := encodeBlocks (whichComponents blocks.length) blocks e #[]
-    let (e, out) :=
-      if e.numAddsRemaining = 0 then
-        let (e, out) := emitBits e out 0x7F 7
-        (e, (out.push 0xFF).push 0xD9)
-      else (e, out)
-    if out.size > bufLen then (e, .panic)
-    else if wfail then ({ e with hasReturnedError := true }, .err .write)
-    else (e, .ok out)
+    let (e, out) := emitEOI e out
+    finishWrite e out wfail
 
 /-- `Encoder.Add1` / `Add3` / `Add6` (n = 1, 3, 6); `blocks = none` is a nil pointer. -/
 def add (e : Encoder) (n : Nat) (wfail : Bool) (blocks : Option (List Block)) : Encoder × Res :=
@@ -266,9 +274,7 @@ def resetFinish (e : Encoder) (wfail : Bool) (colorType : Nat) (width height : I
   let out := encodeSOF0 e out width height
   let out := encodeDHT e out
   let out := encodeSOSHeader e out
-  if out.size > bufLen then (e, .panic)
-  else if wfail then ({ e with hasReturnedError := true }, .err .write)
-  else (e, .ok out)
+  finishWrite e out wfail
 
 /-- `Encoder.Reset`.  `colorType` is a byte; `width`, `height` are Go ints;
     `quants = none` is `options == nil || options.QuantizationFactors == nil`. -/
